@@ -87,6 +87,7 @@ type tr struct {
 	mapVal    *mapValBind // value variable of a map range being rewritten to a key-list range
 	depth     int         // nesting of on-demand helper translation
 	recvName  string      // the receiver's name in the source (call-table keys are written with `k`)
+	inWalk    bool        // translating the body of a Walk closure (it does not touch the store)
 	extraFree []string    // identifiers of the ranged map expression (free in the rewritten loop)
 }
 
@@ -495,8 +496,24 @@ func (t *tr) call(e *ast.CallExpr, en env) V {
 	if callee == "sdk.UnwrapSDKContext" {
 		return V{"()", "SdkCtx"}
 	}
+	if ile, ok := e.Fun.(*ast.IndexListExpr); ok && t.w.render(ile.X) == "collections.NewPrefixedPairRange" && len(e.Args) == 1 {
+		// `collections.NewPrefixedPairRange[K1, K2](prefix)`: all pairs whose first component is the prefix
+		x := t.expr(e.Args[0], en)
+		if x.T != "Int" {
+			return t.bad("pair-range prefix of type %s", x.T)
+		}
+		return V{x.L, "PairRange"}
+	}
 	if cs, ok := t.u.Calls[callee]; ok && cs.Walk != "" && len(e.Args) == 3 {
 		if fl, ok := e.Args[2].(*ast.FuncLit); ok {
+			if identName(e.Args[1]) != "nil" {
+				// a walk over a prefixed range: the records under that prefix only
+				r := t.expr(e.Args[1], en)
+				if r.T != "PairRange" || cs.WalkPrefix == "" {
+					return t.bad("Walk over a range of type %s", r.T)
+				}
+				cs.Walk = strings.ReplaceAll(cs.WalkPrefix, "%p", atom(r.L))
+			}
 			return t.walkFold(cs, fl, en)
 		}
 		return t.bad("Walk without a function literal")
@@ -780,6 +797,8 @@ func leanType(t LT) string {
 		return "Bool"
 	case t == "Time":
 		return "Int"
+	case t == "PairRange":
+		return "Int" // a prefixed pair range is its prefix (the auction id)
 	case strings.HasPrefix(t, "List "):
 		return "List " + leanTypeAtom(strings.TrimPrefix(t, "List "))
 	case strings.HasPrefix(t, "Option "):
@@ -1049,7 +1068,7 @@ func (t *tr) stmts(list []ast.Stmt, en env, k cont) string {
 			if t.u.EffectsOn {
 				vars = append(vars, "effs__")
 			}
-			if t.u.StoreOn {
+			if t.u.StoreOn && !t.inWalk {
 				vars = append(vars, "st__")
 			}
 			tuple := func(e2 env) string {
@@ -1882,6 +1901,8 @@ func (t *tr) walkFold(cs callSpec, fl *ast.FuncLit, en env) V {
 	oldLoop, oldClos, oldPre := t.loop, t.closure, t.pre
 	t.loop, t.closure, t.pre = nil, nil, nil
 	failBefore := t.fail
+	t.inWalk = true // a Walk closure does not touch the store: joins inside it do not thread `st__`
+	defer func() { t.inWalk = false }()
 	bodyL := t.stmts(inner.List, cen, func(e2 env) string {
 		var parts []string
 		for _, n := range state {
@@ -2318,10 +2339,11 @@ var groupDeps = map[string][]string{
 	"Genesis":  {"Pure", "Msgs"},
 	"Import":   {"Pure"},
 	"Export":   {"Pure"},
+	"Getters":  {"Pure"},
 	"Server":   {"Pure", "Msgs", "Bids", "Auctions"},
 }
 
-var groupOrder = []string{"Pure", "Msgs", "Bids", "Auctions", "Settle", "Match", "Payout", "Server", "Genesis", "Import", "Export"}
+var groupOrder = []string{"Pure", "Msgs", "Bids", "Auctions", "Settle", "Match", "Payout", "Server", "Genesis", "Import", "Export", "Getters"}
 
 // translateUnits renders Generated/Code/<Group>.lean, one file per group of units.
 func (w *World) translateUnits() map[string]string {
@@ -2337,7 +2359,7 @@ func (w *World) translateUnits() map[string]string {
 		b.WriteString("  Each definition is the translation of the named Go function of /repo as it is NOW;\n")
 		b.WriteString("  Fundraising/Proofs/Tie/*.lean prove each equal to the hand-written model.\n-/\n")
 		b.WriteString("import Fundraising.Tables.GoSem\n")
-		if g == "Import" || g == "Export" {
+		if g == "Import" || g == "Export" || g == "Getters" {
 			b.WriteString("import Fundraising.Tables.GoStore\n")
 		}
 		if g == "Match" || g == "Payout" {
